@@ -55,7 +55,7 @@ const char *const gen_all_ops[] = {
   "solve", "pluq_solve", "kernel",
   "add", "transpose", "copy", "submatrix", "concat", "stack", "extract_u", "extract_l", "set_ui", "cmp",
   "ap_left", "ap_left_trans", "ap_right", "ap_right_trans", "ap_right_trans_tri",
-  "mzp_copy", "mzp_window", "col_swap", "row_swap", "row_add", "from_str", "window_cycle",
+  "mzp_copy", "mzp_window", "col_swap", "row_swap", "row_add", "from_str", "window_cycle", "window_burst",
   NULL
 };
 int gen_nops(void) { int n = 0; while (gen_all_ops[n]) n++; return n; }
@@ -255,6 +255,13 @@ int gen_case(rng_t *r, const char *op, const genopt_t *g, sbuf_t *o, int rb, int
     int c0 = (int)rng_below(r, (uint64_t)((n + 63) / 64));
     int c1 = c0 * 64 + 1 + (int)rng_below(r, (uint64_t)(n - c0 * 64));
     sb_printf(o, "op window_cycle %d %d %d %d %d\n", rb, r0, c0, r1, c1);
+    return 1;
+  }
+  if (IS("window_burst")) {
+    int m = gen_dim(r, D > 100 ? 100 : D), n = gen_dim(r, D);
+    int cnts[] = { 63, 64, 65, 70, 130, 200, 3, 1030 };
+    emit_mat(r, o, rb, m, n, NULL, 0);
+    sb_printf(o, "op window_burst %d %d\n", rb, cnts[rng_below(r, D >= 400 ? 8 : 7)]);
     return 1;
   }
   if (IS("to_png") || IS("from_png")) { /* write (and read back) through the simulated file layer */
